@@ -17,7 +17,10 @@ NAME_CHARS = "ABCDEFGHIJKLMNOPQRSTUVWXYZabcdefghijklmnopqrstuvwxyz0123456789_"
 def rand_name(r, used, lo=1, hi=18, prefix=""):
     while True:
         n = r.randint(lo, hi)
-        s = prefix + r.choice(NAME_CHARS[:52]) + "".join(r.choice(NAME_CHARS) for _ in range(n - 1))
+        first = r.choice(NAME_CHARS[:52])
+        if not prefix and n > 1 and r.random() < 0.06:
+            first = "_"             # a single leading underscore is a legal user name
+        s = prefix + first + "".join(r.choice(NAME_CHARS) for _ in range(n - 1))
         if s.endswith("_") or "__" in s or s.upper().startswith("ZZZZZZZZZZ"):
             continue
         # names that the library's tag-list filter keys on must not appear by accident
@@ -218,6 +221,18 @@ def gen_project(r, feat=None):
             cap = r.choice((1, 2, 3, 4, 5, 8, 20, 40, 82, 100, 255, 480, r.randint(1, 500)))
             nm = rand_name(r, used_types, 3, 12, prefix="STR")
             make_string_type(project, r, nm, cap, new_tid(), new_handle())
+    # a structure that only LOOKS like a string (LEN + DATA, but DATA is not a SINT array) must stay a structure
+    if f["n_types"] and r.random() < 0.12:
+        nm = rand_name(r, used_types, 2, 12)
+        et = r.choice(("INT", "DINT", "USINT", "REAL"))
+        n = r.randint(1, 6)
+        es = ATOMIC_BY_NAME[et][1]
+        off2 = 4
+        size = align(off2 + es * n, 4)
+        project["types"][nm] = {"name": nm, "template_id": new_tid(), "handle": new_handle(), "size": size, "align": 4,
+                                "string_cap": None, "predefined": False, "depth": 1, "members": [
+                                    {"name": "LEN", "type": "DINT", "array": 0, "offset": 0, "bit": None, "hidden": False},
+                                    {"name": "DATA", "type": et, "array": n, "offset": off2, "bit": None, "hidden": False}]}
     # UDTs
     for i in range(f["n_types"]):
         nm = rand_name(r, used_types, 2, 16)
